@@ -46,7 +46,7 @@ ASSUMPTIONS = ['SQLite 3 through pony.orm.dbproviders.sqlite; sessions are seque
                'ones whose outcome does not depend on cascade rules (no delete of an object that is required by another)',
                'Python json and pickle modules']
 SHARDS = {'quick': 4, 'thorough': 16}
-MIN_EVALS = {'quick': 2000, 'thorough': 20000}
+MIN_EVALS = {'quick': 4000, 'thorough': 60000}
 CLASS_FLOORS = {'sep_in_key': 0.02, 'case': 0.02}
 
 SIZES = {'quick': dict(max_ents=3, max_objs=3, keylen=3, max_mods=4),
@@ -798,6 +798,10 @@ def execute(case, fail, workdir, stats, allow_sub):
             preloaded.add(x)
             for d in M.meta[x[0]]:
                 if d['pk'] and d['kind'] == 'one': todo.append(M.objs[x]['refs'][d['name']])
+                elif d['kind'] == 'one' and d['relkind'] in ('o2o', 'pko2o'):
+                    # the row of one side of a one-to-one carries the link: loading it also sets the partner's attribute
+                    partner = M.get(x, d['name'])
+                    if partner is not None: todo.append(partner)
         ctxinfo = {'r2': applied_between > 0, 'stale_rows': stale_rows, 'stale_colls': stale_colls, 'lazy': lazy,
                    'preloaded': preloaded}
         stats['r2'] = stats.get('r2', 0) + (1 if applied_between else 0)
@@ -998,7 +1002,7 @@ def run(ctx):
                  sample={'spec': case['spec'], 'objects': sum(len(x) for x in case['objs']), 'mods': case['mods'],
                          'between': case['between'], 'jobs': case['plan']['jobs']})
     try:
-        ctx.run_test(t, dict(case=cases()), max_examples=ctx.scale(130, 500), name='cases')
+        ctx.run_test(t, dict(case=cases()), max_examples=ctx.scale(300, 500), name='cases')
     finally:
         for k, v in stats.items():
             ctx.extra[k] = ctx.extra.get(k, 0) + v
